@@ -241,7 +241,7 @@ def looper_method(eng, lc, attr, args, kwargs, fr, node):
         H.heap_write(eng, lc, 'running', vbool(False))
         eng.trace_event('LoopStop', lc, 'stop')
         # the Deferred returned by start() fires now: its callbacks (ours: *_timer_stopped) run synchronously
-        H.external_call(eng, 'LoopingCall.stop')
+        H.external_call(eng, 'LoopingCall.stop', exempt=('looper-running',))
         return VNONE
     if attr == 'reset':
         n = eng.callcount.get('lcreset', 0) + 1
